@@ -1,7 +1,29 @@
+import StoneVerif.Gen.Tables
 import StoneVerif.Model.Fmt
-/-! Property theorems for C18 (backends write verbatim, inside the output folder). -/
+import StoneVerif.Model.Path
+import StoneVerif.Model.Emit
+import StoneVerif.Model.Wrap
+import StoneVerif.Model.Manifest
+import StoneVerif.Lemmas.Fmt
+import StoneVerif.Lemmas.Path
+import StoneVerif.Lemmas.Emit
+import StoneVerif.Lemmas.Wrap
+import StoneVerif.Lemmas.Manifest
+/-!
+Property theorems for C18: backends write only inside the output folder, verbatim, as the manifest says.
+
+* paths:     `contained_iff_prefix`, `relative_ok_no_escape`, `containment_test_table`
+* text:      `format_escape`, `format_segments`, `escape_table`, `escape_eq_table`,
+             `emit_lines`, `indent_restored`, `indent_step_table`, `wrap_words`, `wrap_defaults_table`
+* manifest:  `refused_before_write`, `validation_mode_independent`, `manifest_creates_no_file`,
+             `manifest_eq_real`, `effect_order_table`
+-/
 namespace StoneVerif.C18
 open StoneVerif.Fmt
+
+deriving instance DecidableEq for Except
+
+/-! ## Text reaches the file verbatim -/
 
 /-- Raw text emitted through `emit_raw` survives `output_buffer_to_string` byte for byte,
 whatever braces or format-like sequences it contains, and consumes no placeholder. -/
@@ -18,5 +40,343 @@ theorem format_escape (named) (pos) (s : List Char) : pyFormat named pos (escape
           · simp [ih]
           all_goals simp_all
         all_goals simp_all
+
+/-- A buffer built from escaped raw segments and placeholder fields formats to the concatenation of the
+raw texts and the registered placeholder texts (`expand`); it fails exactly when a placeholder was
+never registered. -/
+theorem format_segments (named) (pos) (segs : List Seg)
+    (h : ∀ n, Seg.field n ∈ segs → validName n = true) :
+    pyFormat named pos (renderSegs segs) = expand named pos segs :=
+  pyFormat_renderSegs named pos segs h
+
+example : pyFormat [("x".toList, "{X}".toList)] ["%s".toList]
+    (renderSegs [.lit "a{0}b}".toList, .field [], .field "x".toList, .lit "{{x}}\n".toList])
+    = some "a{0}b}%s{X}{{x}}\n".toList := by
+  rw [format_segments _ _ _ (by intro n hn; simp at hn; rcases hn with rfl | rfl <;> decide)]
+  decide
+
+/-- The replacement chain of `emit_raw`, as extracted from the source. -/
+theorem escape_table : Tables.emitRawReplacements = [("{", "{{"), ("}", "}}")] := by decide
+
+/-- `s.replace(a, b)` for a one-character pattern -/
+def replaceChar (a : Char) (b : List Char) : List Char → List Char
+  | [] => []
+  | c :: cs => if c = a then b ++ replaceChar a b cs else c :: replaceChar a b cs
+
+/-- apply a `.replace(a, b)` chain (one-character patterns only) in order -/
+def applyTable : List (String × String) → List Char → Option (List Char)
+  | [], s => some s
+  | (a, b) :: rest, s =>
+    match a.toList with
+    | [c] => applyTable rest (replaceChar c b.toList s)
+    | _ => none
+
+/-- The model's `escape` is the replacement chain found in the source. -/
+theorem escape_eq_table (s : List Char) : applyTable Tables.emitRawReplacements s = some (escape s) := by
+  rw [escape_table]
+  simp only [applyTable, String.toList]
+  show some (replaceChar '}' ['}', '}'] (replaceChar '{' ['{', '{'] s)) = some (escape s)
+  congr 1
+  induction s with
+  | nil => rfl
+  | cons c cs ih =>
+    by_cases h1 : c = '{'
+    · subst h1; simp [replaceChar, escape, ih]
+    · by_cases h2 : c = '}'
+      · subst h2; simp [replaceChar, escape, ih]
+      · rw [escape]
+        · simp [replaceChar, h1, h2, ih]
+        all_goals simp_all
+
+/-! ## Emit machine = reference pretty-printer -/
+open StoneVerif.Emit in
+/-- For every script, running the emit machine on a fresh backend and formatting the buffer gives exactly
+the reference pretty-printer's text: every emitted line = indentation of the enclosing indent / block /
+list contexts ++ text ++ "\n" (a bare newline for an empty text), raw and wrapped text verbatim,
+placeholders replaced by their registered text; the machine fails (assertion, `KeyError`/`IndexError`
+of `str.format`, `ValueError` of `textwrap`) exactly when the reference rejects the script. -/
+theorem emit_lines (tabs : Bool) (script : List Op) :
+    (runScript tabs script).toOption = refText tabs script := by
+  have hs := runList_spec tabs script St.init
+  unfold runScript refText wellFormed
+  cases hok : opsOk tabs St.init.ind script with
+  | false =>
+    obtain ⟨e, he⟩ := hs.2 hok
+    have : (ctxOkList script && (piecesList tabs 0 script).all pieceOk) = false := hok
+    rw [he, this]; rfl
+  | true =>
+    have : (ctxOkList script && (piecesList tabs 0 script).all pieceOk) = true := hok
+    rw [hs.1 hok, this]
+    simp only [if_true]
+    show (bufferToString _).toOption = _
+    unfold bufferToString
+    have hvalid : ∀ n, Seg.field n ∈ (piecesList tabs 0 script).map (pieceSeg tabs) → validName n = true := by
+      intro n hn
+      simp only [List.mem_map] at hn
+      obtain ⟨p, hp, hpe⟩ := hn
+      have hall : (piecesList tabs 0 script).all pieceOk = true := by
+        simp only [Bool.and_eq_true] at this; exact this.2
+      have := List.all_eq_true.1 hall p hp
+      cases p with
+      | line i t => simp [pieceSeg] at hpe
+      | raw t => simp [pieceSeg] at hpe
+      | field m => simp [pieceSeg] at hpe; subst hpe; simpa [pieceOk] using this
+    have hfmt := format_segments (namedOfList script) (posOfList script) _ hvalid
+    have hout : (res tabs St.init (piecesList tabs St.init.ind script) (posOfList script) (namedOfList script)).out.flatten
+        = renderSegs ((piecesList tabs 0 script).map (pieceSeg tabs)) := by
+      have henc : enc tabs = fun x => encodeSeg (pieceSeg tabs x) := rfl
+      simp [res, St.init, renderSegs, henc, List.map_map, Function.comp_def]
+    have hnamed : (res tabs St.init (piecesList tabs St.init.ind script) (posOfList script) (namedOfList script)).named
+        = namedOfList script := by simp [res, St.init]
+    have hpos : (res tabs St.init (piecesList tabs St.init.ind script) (posOfList script) (namedOfList script)).pos
+        = posOfList script := by simp [res, St.init]
+    rw [hout, hnamed, hpos, hfmt]
+    cases expand (namedOfList script) (posOfList script) ((piecesList tabs 0 script).map (pieceSeg tabs)) <;> rfl
+
+open StoneVerif.Emit in
+/-- Every context manager restores the indentation it found: after any successfully executed list of
+operations (with arbitrarily nested `indent` / `block` / multi-line lists) `cur_indent` is what it was. -/
+theorem indent_restored (tabs : Bool) (st st' : St) (ops : List Op) (h : runList tabs st ops = .ok st') :
+    st'.ind = st.ind := by
+  have hs := runList_spec tabs ops st
+  cases hok : opsOk tabs st.ind ops with
+  | false => obtain ⟨e, he⟩ := hs.2 hok; rw [he] at h; cases h
+  | true => rw [hs.1 hok] at h; cases h; rfl
+
+open StoneVerif.Emit in
+/-- non-vacuity: a nested script with braces, a placeholder and a block, evaluated through the theorem -/
+example : (runScript false
+      [.addNamed "n".toList "{}".toList,
+       .block "if (x)".toList [] (some "{".toList) (some "}".toList) none false
+         [.emit "a{0} = {b};".toList, .indent (some 2) [.emit [], .emit "y".toList], .placeholder "n".toList,
+          .emitRaw "\n".toList],
+       .mlist ["p".toList, "q".toList, "r".toList] "f".toList ";".toList "(".toList ")".toList true ",".toList false]).toOption
+    = some "if (x) {\n    a{0} = {b};\n\n      y\n{}\n}\nf(p,\n  q,\n  r);\n".toList := by
+  rw [emit_lines]; decide
+
+open StoneVerif.Emit in
+/-- non-vacuity of the refusal side: a newline inside `emit` is an error in both -/
+example : (runScript true [.emit "a\nb".toList]).toOption = none := by
+  rw [emit_lines]; decide
+
+open StoneVerif.Emit in
+/-- `indent_step()` in the source: one tab or four spaces. -/
+theorem indent_step_table :
+    indentStep true = Tables.indentStepTabs ∧ indentStep false = Tables.indentStepSpaces ∧
+    Tables.indentStepTest = "self.tabs_for_indents" := by decide
+
+/-! ## Wrapped text keeps every word, in order, behind its prefix -/
+open StoneVerif.Wrap in
+/-- `textwrap.fill` as called by `emit_wrapped_text` (no long-word breaking, no hyphen breaking): the output
+is a sequence of lines `indent ++ body`; the words (`str.split()`) of the bodies, concatenated in order,
+are exactly the words of the input; the first line carries `initial_indent`, every other line
+`subsequent_indent`. -/
+theorem wrap_words (width : Int) (ini sub s : Str) (hw : 0 < width) :
+    ∃ body : List (Str × Str),
+      fill width ini sub s = .ok (joinLines (body.map fun l => l.1 ++ l.2)) ∧
+      body.flatMap (fun l => words l.2) = words s ∧
+      (∀ hd tl, body = hd :: tl → hd.1 = ini ∧ ∀ l ∈ tl, l.1 = sub) := by
+  refine ⟨(wrapLoop width ini sub false (chunks (munge s))).map (fun l => (l.1, l.2.flatten)), ?_, ?_, ?_⟩
+  · have : ¬ width ≤ 0 := by omega
+    simp [fill, wrap, this, Except.map, List.map_map, Function.comp_def]
+  · have hg := chunks_good (munge s)
+    have hspec := wrapLoop_spec width ini sub _ false (chunks (munge s)) (Nat.le_refl _) hg
+    rw [List.flatMap_map]
+    have h1 : (wrapLoop width ini sub false (chunks (munge s))).flatMap (fun l => words l.2.flatten)
+        = (wrapLoop width ini sub false (chunks (munge s))).flatMap (fun l => F l.2) := by
+      apply flatMap_congr'
+      intro l hl
+      exact words_flatten l.2 (hspec.1 l hl)
+    rw [h1, hspec.2, ← words_flatten _ hg, chunks_flatten, words_munge]
+  · intro hd tl e
+    have hi := (wrapLoop_indents width ini sub _ false (chunks (munge s)) (Nat.le_refl _)).2 rfl
+    cases hwl : wrapLoop width ini sub false (chunks (munge s)) with
+    | nil => rw [hwl] at e; simp at e
+    | cons a as =>
+      rw [hwl] at e
+      simp at e
+      obtain ⟨rfl, rfl⟩ := e
+      have := hi a as hwl
+      refine ⟨this.1, ?_⟩
+      intro l hl
+      simp at hl
+      obtain ⟨x, y, hxy, rfl⟩ := hl
+      exact this.2 (x, y) hxy
+
+open StoneVerif.Wrap in
+/-- non-vacuity: the specification vocabulary on a concrete text -/
+example : words "  the quick\tbrown fox \n".toList = ["the".toList, "quick".toList, "brown".toList, "fox".toList] := by
+  decide
+
+/-- Defaults of `emit_wrapped_text` in the source: width 80, words are never broken. -/
+theorem wrap_defaults_table :
+    Tables.wrapDefaultWidth = 80 ∧ Tables.wrapDefaultBreakLongWords = false ∧
+    Tables.wrapDefaultBreakOnHyphens = false := by decide
+
+/-! ## Paths cannot escape the output folder -/
+open StoneVerif.Path in
+/-- `_relative_output_path` accepts a path iff the normalised component list of the output root is a
+prefix of the normalised component list of the target (both directions: nothing escapes, nothing inside
+is refused). `cwd` is `os.getcwd()`, an absolute path. -/
+theorem contained_iff_prefix (cwd root p : Str) (hcwd : isAbs cwd = true) :
+    (∃ r, relativeOutputPath cwd root p = .ok r) ↔ absComps cwd root <+: absComps cwd p := by
+  rw [relativeOutputPath_spec cwd root p hcwd]
+  by_cases h : absComps cwd root <+: absComps cwd p <;> simp [h]
+
+open StoneVerif.Path StoneVerif.Manifest in
+/-- An accepted request yields a relative path that is not absolute, does not begin with a parent
+segment, consists of proper names only (no empty, `.` or `..` segment), and leads from the root to the
+target. -/
+theorem relative_ok_no_escape (cwd root p r : Str) (hcwd : isAbs cwd = true)
+    (h : relativeOutputPath cwd root p = .ok r) :
+    isAbs r = false ∧ escapes r = false ∧ (∀ c ∈ compsOfRel r, Proper c) ∧
+      absComps cwd p = absComps cwd root ++ compsOfRel r := by
+  have hc := accepted_comps cwd root p r hcwd h
+  have hesc : escapes r = false := by
+    simp only [relativeOutputPath] at h
+    split at h
+    · cases h
+    · next rel _ =>
+      split at h
+      · cases h
+      · next hne => cases h; simpa using hne
+  refine ⟨?_, hesc, ?_, hc.2⟩
+  · unfold escapes at hesc
+    simp only [Bool.or_eq_false_iff] at hesc
+    exact hesc.2
+  · intro c hcm
+    exact absComps_proper cwd p hcwd c (by rw [hc.2]; simp [hcm])
+
+open StoneVerif.Path in
+/-- non-vacuity: `..` inside the folder is accepted, `..` out of it and absolute paths are refused,
+a name that merely starts with two dots is fine -/
+example :
+    relativeOutputPath "/w".toList "out".toList "out/a/../b/c.py".toList = .ok "b/c.py".toList ∧
+    relativeOutputPath "/w".toList "out".toList "out/../x".toList = .error () ∧
+    relativeOutputPath "/w".toList "out".toList "/etc/passwd".toList = .error () ∧
+    relativeOutputPath "/w".toList "out".toList "out/..x".toList = .ok "..x".toList ∧
+    relativeOutputPath "/w".toList "../out".toList "out/x".toList = .error () := by decide
+
+/-- The three-way test of `_relative_output_path` in the source is the one `Path.escapes` models, and the
+function returns the relative path with `os.sep` replaced by '/' (the identity on POSIX). -/
+theorem containment_test_table :
+    Tables.relativeOutputPathTests =
+      ["relative_path==os.pardir", "relative_path.startswith(os.pardir+os.sep)", "os.path.isabs(relative_path)"] ∧
+    Tables.relativeOutputPathReturn = ["relative_path.replace(os.sep,'/')"] := by decide
+
+/-! ## Refusal precedes every effect; the manifest run equals the real run -/
+open StoneVerif.Manifest in
+/-- A request whose validation fails leaves the files and the log untouched, in either mode
+(`out` and `copy` leave the whole state untouched; the Swift writer may have created the output folder
+itself before validating). -/
+theorem refused_before_write (m : Bool) (cfg : Cfg) (st st' : RunState) (op : Op)
+    (h : step m cfg st op = (st', some .refused)) :
+    st'.fs.files = st.fs.files ∧ st'.log = st.log ∧
+      ((∀ c f, op ≠ .swiftWrite c f) → st' = st) := by
+  cases op with
+  | out rel ap c =>
+    have := commit_refused m cfg st st' _ _ _ _ h
+    subst this; exact ⟨rfl, rfl, fun _ => rfl⟩
+  | copy s c d =>
+    have := commit_refused m cfg st st' _ _ _ _ h
+    subst this; exact ⟨rfl, rfl, fun _ => rfl⟩
+  | swiftWrite c f =>
+    have := commit_refused m cfg _ st' _ _ _ _ h
+    subst this; exact ⟨rfl, rfl, fun hne => absurd rfl (hne c f)⟩
+
+open StoneVerif.Manifest StoneVerif.Path in
+/-- Whether a request is refused does not depend on the mode or on the file system: both modes run the
+same `_validate_output_path` first. -/
+theorem validation_mode_independent (cfg : Cfg) (st₁ st₂ : RunState) (p : Str) (mk ap : Bool) (c : Str) :
+    ((commit true cfg st₁ p mk ap c).2 = some .refused ↔ relativeOutputPath cfg.cwd cfg.root p = .error ()) ∧
+    ((commit false cfg st₂ p mk ap c).2 = some .refused ↔ relativeOutputPath cfg.cwd cfg.root p = .error ()) := by
+  constructor
+  · unfold commit
+    cases hv : relativeOutputPath cfg.cwd cfg.root p with
+    | error e => simp
+    | ok r => simp
+  · unfold commit
+    cases hv : relativeOutputPath cfg.cwd cfg.root p with
+    | error e => simp
+    | ok r =>
+      simp only [Bool.false_eq_true, if_false]
+      split
+      · next e he => have := writeFile_err _ _ _ _ _ he; subst this; simp
+      · simp
+
+open StoneVerif.Manifest in
+/-- A manifest run creates, changes and deletes no file, whatever the operations and however it ends. -/
+theorem manifest_creates_no_file (cfg : Cfg) (ops : List Op) (fs₀ : FS) :
+    (manifestRun cfg ops fs₀).1.fs.files = fs₀.files :=
+  run_manifest_files cfg ops _
+
+open StoneVerif.Manifest StoneVerif.Path in
+/-- If the real run of a list of write requests completes, the manifest run with the same arguments
+completes too and reports (`OutputManifest.outputs()`: sorted, duplicate-free) exactly the relative names
+of the files the real run wrote; those are exactly the new files in the real file system, all below the
+output root; and the manifest run changed no file.
+
+Hypothesis `hcopy`: every `copy_to_path` destination is a directory that exists before the run (how the
+built-in backends call it). Without it the two modes can disagree (see the `example` below): in manifest
+mode a directory that a *real* `output_to_relative_path` would have created does not exist, so
+`os.path.isdir(dst)` differs. -/
+theorem manifest_eq_real (cfg : Cfg) (hcwd : isAbs cfg.cwd = true) (ops : List Op) (fs₀ : FS) (stR : RunState)
+    (hcopy : CopyIntoExisting cfg fs₀.dirs ops)
+    (hreal : realRun cfg ops fs₀ = (stR, none)) :
+    ∃ stM, manifestRun cfg ops fs₀ = (stM, none) ∧
+      OutputManifest.outputs ⟨stM.log⟩ = sortDedup stR.log ∧
+      (∀ r, r ∈ OutputManifest.outputs ⟨stM.log⟩ ↔ r ∈ stR.log) ∧
+      (∀ r ∈ stR.log, absComps cfg.cwd cfg.root ++ compsOfRel r ∈ keys stR.fs) ∧
+      (∀ k ∈ keys stR.fs, k ∈ keys fs₀ ∨ ∃ r ∈ stR.log, k = absComps cfg.cwd cfg.root ++ compsOfRel r) ∧
+      stM.fs.files = fs₀.files := by
+  obtain ⟨stM, hm, hlog⟩ := run_pair cfg fs₀.dirs ops { fs := fs₀, log := [] } { fs := fs₀, log := [] } stR hcopy rfl
+    (fun d hd => hd) (fun d hd => hd) hreal
+  have hinv := run_real_inv cfg hcwd (keys fs₀) ops { fs := fs₀, log := [] } stR
+    ⟨by simp, fun k hk => Or.inl hk⟩ hreal
+  refine ⟨stM, hm, ?_, ?_, hinv.1, hinv.2, ?_⟩
+  · simp [OutputManifest.outputs, hlog]
+  · intro r; simp [OutputManifest.outputs, mem_sortDedup, hlog]
+  · have := manifest_creates_no_file cfg ops fs₀
+    unfold manifestRun at this
+    rw [hm] at this; exact this
+
+open StoneVerif.Manifest in
+/-- non-vacuity of `manifest_eq_real` and of `refused_before_write`: a python_types-like run, then an
+escaping request -/
+example :
+    let cfg : Cfg := { cwd := "/w".toList, root := "out".toList }
+    let fs₀ : FS := { files := [], dirs := [["w".toList], ["w".toList, "out".toList]] }
+    let ops := [Op.out "__init__.py".toList true "".toList, .out "ns/a.py".toList false "x".toList,
+                .copy "Base.swift".toList "b".toList "out".toList, .swiftWrite "s".toList "S.swift".toList,
+                .out "ns/../ns/a.py".toList false "y".toList]
+    (realRun cfg ops fs₀).2 = none ∧
+    OutputManifest.outputs ⟨(manifestRun cfg ops fs₀).1.log⟩ =
+      ["Base.swift".toList, "S.swift".toList, "__init__.py".toList, "ns/a.py".toList] ∧
+    keys (realRun cfg ops fs₀).1.fs =
+      [["w", "out", "__init__.py"], ["w", "out", "ns", "a.py"], ["w", "out", "Base.swift"], ["w", "out", "S.swift"]].map
+        (·.map String.toList) ∧
+    (realRun cfg (ops ++ [.out "../evil".toList false "z".toList]) fs₀).2 = some .refused ∧
+    keys (realRun cfg (ops ++ [.out "../evil".toList false "z".toList]) fs₀).1.fs = keys (realRun cfg ops fs₀).1.fs := by
+  decide
+
+open StoneVerif.Manifest in
+/-- The hypothesis of `manifest_eq_real` is needed: copying into a directory that only a real
+`output_to_relative_path` creates makes the manifest (`sub`) differ from the real run (`sub/f.h`).
+No built-in backend does this. -/
+example :
+    let cfg : Cfg := { cwd := "/w".toList, root := "out".toList }
+    let fs₀ : FS := { files := [], dirs := [["w".toList], ["w".toList, "out".toList]] }
+    let ops := [Op.out "sub/a.txt".toList false "x".toList, .copy "f.h".toList "b".toList "out/sub".toList]
+    (realRun cfg ops fs₀).1.log = ["sub/a.txt".toList, "sub/f.h".toList] ∧
+    (manifestRun cfg ops fs₀).1.log = ["sub/a.txt".toList, "sub".toList] := by
+  decide
+
+/-- Order of validation, recording and file-system calls in the three writers of the source:
+validation precedes recording precedes every write; only the Swift writer creates the output folder
+itself before validating. -/
+theorem effect_order_table :
+    Tables.outputToRelativePathCalls = ["_validate_output_path", "_record_output_path", "makedirs", "open", "write"] ∧
+    Tables.copyToPathCalls = ["_validate_output_path", "_record_output_path", "copy"] ∧
+    Tables.swiftWriteCalls = ["mkdir", "_validate_output_path", "_record_output_path", "open", "write"] := by decide
 
 end StoneVerif.C18
